@@ -8,13 +8,25 @@ mkdir -p .build evidence replays
 # 1. translator and a first generation of Gen/*
 (cd tools/extract && go build -o ../../.build/extract .)
 .build/extract -repo "$REPO" -out lean/OjgVerif/Gen
-# 2. the whole Lake project (models, proofs, drivers)
-(cd lean && lake build OjgVerif $(sed -n 's/^name = "\(drv_[a-z0-9_]*\)"$/\1/p' lakefile.toml))
-# 3. harness binaries
+# 2. proof modules and drivers of every claimed property (registry entries marked ready)
+TARGETS=$(python3 - <<'PY'
+import json,glob
+t=set()
+for f in glob.glob('registry/*.json'):
+    r=json.load(open(f))
+    if r.get('ready'):
+        t.update(r.get('lean_modules',[]))
+        if r.get('driver'): t.add(r['driver'])
+print(' '.join(sorted(t)))
+PY
+)
+(cd lean && lake build $TARGETS)
+# 3. harness binaries of the claimed properties
 sed "s#@REPO@#$REPO#" harness/go.mod.tmpl > harness/go.mod
 [ -f "$REPO/go.sum" ] && cp "$REPO/go.sum" harness/go.sum
-for d in harness/cmd/*/; do
-  n=$(basename "$d")
+for n in $(python3 -c "
+import json,glob
+print(' '.join(sorted({json.load(open(f)).get('harness','') for f in glob.glob('registry/*.json') if json.load(open(f)).get('ready')}-{''})))"); do
   (cd harness && go build -tags verif -o ../.build/h_$n ./cmd/$n)
 done
 echo "setup done"
